@@ -360,6 +360,46 @@ func (x *seqRun) checkImage(img *simdisk.Image, states []*Model, metas []string,
 				step(&In{K: "remove", Obj: rootH, Name: name + "2"}, true)
 			}
 		}
+		// a file whose truncation the crash interrupted is removed: touching it must
+		// release everything it still holds ("blocks still held by a half-freed object
+		// are released when the object's number is next reused or touched")
+		if len(info.LiveShrinking) > 0 {
+			held := map[uint64]bool{}
+			for _, ino := range info.HalfFreedInos {
+				held[ino] = true
+			}
+			for _, o := range m.LiveObjs() {
+				victim := o.FileID
+				if !containsU64(info.LiveShrinking, victim) {
+					continue
+				}
+				if o.Kind != kREG || o.Size == 0 {
+					// (an empty file's remainder is reclaimed lazily, when its inode number is
+					// reused: the other branch of "reused or touched"; see DESIGN.md)
+					continue
+				}
+				par := m.Objs[o.Parent]
+				for nm, id := range par.Kids {
+					if id == o.ID {
+						step(&In{K: "remove", Obj: par.H, Name: nm}, true)
+						break
+					}
+				}
+				simrt.WaitUntil("background shrinker to finish", func() bool { return rig.Srv.VerifShrinkerThreads() == 0 })
+				simrt.Quiesce()
+				if i2, err := fsck(rig, x.nameMax); err != nil {
+					fail("fsck", "fsck:"+err.(*fsckErr).clause, "after removing a file whose truncation the crash had interrupted: "+err.Error())
+				} else {
+					for _, ino := range i2.HalfFreedInos {
+						if ino == victim && !held[ino] {
+							fail("conservation", "conservation:interrupted-truncate-then-remove", fmt.Sprintf("a file (inode %d) whose background truncation the crash had interrupted was removed after recovery; the freeing has finished but the free inode still holds blocks (%s)", ino, i2.HalfFreedWhat))
+						}
+					}
+				}
+				x.res.count("probe_remove_after_interrupted_truncate", 1)
+				break
+			}
+		}
 		// reuse of half-freed inode numbers: create a few objects and delete them
 		if info.HalfFreed > 0 {
 			for i := 0; i < 3; i++ {
